@@ -62,11 +62,11 @@ def secure_receive_reviewed(repo: Repo) -> dict:
 
     def tpci_fits() -> bool:
         codes = group_tpci_codes(repo)
-        return codes is not None and all(0 <= (c << 2) + 3 <= 255 for c in codes) and group_gate_holds(repo)
+        return codes is not None and all(0 <= (c | 3) <= 255 for c in codes) and group_gate_holds(repo)
     return {
         "OverflowError|BaseAddress.to_knx|int.to_bytes(self.raw, 2, 'big')": ("0 <= raw <= 65535 is the address constructors' invariant (C01 rule constructor-establishes-16-bit-range) and nothing else writes raw", _memo(lambda: raw_is_16_bit(repo))),
         "OverflowError|calculate_message_authentication_code_cbc|len(additional_data).to_bytes(2, 'big')": ("additional_data is the one-octet control field plus, at most, the secured APDU of one received frame (NPDU length is one octet): far below 65536", None),
-        "ValueError|block_0|bytes((0, address_type.to_knx() | frame_format, (tpci_int << 2) + _APCI_SEC_HIGH, _APCI_SEC_LOW, 0, payload_length))": ("on the receive path the destination is a group address (gate before verification), so the frame's TPCI is one TPCI.resolve returns for group destinations, whose codes are < 64; address type | frame format is the frame's control octet; payload_length is the length of a slice of one received APDU (< 256)", _memo(tpci_fits)),
+        "ValueError|block_0|bytes((0, address_type.to_knx() | frame_format, tpci_int | _APCI_SEC_HIGH, _APCI_SEC_LOW, 0, payload_length))": ("on the receive path the destination is a group address (gate before verification), so the frame's TPCI is one TPCI.resolve returns for group destinations, whose octets are one-octet values (TPCI.to_knx of a resolved PDU); address type | frame format is the frame's control octet; payload_length is the length of a slice of one received APDU (< 256)", _memo(tpci_fits)),
     }
 
 
